@@ -158,7 +158,12 @@ fn b64(data: &[u8]) -> String {
 }
 
 /// data URI of a real 8x8 PNG of one opaque colour (encoded with the png crate)
-fn solid_png_uri(rgb: [u8; 3]) -> String {
+pub fn solid_png_uri(rgb: [u8; 3]) -> String {
+    format!("data:image/png;base64,{}", b64(&solid_png(rgb)))
+}
+
+/// a real 8x8 PNG of one opaque colour (encoded with the png crate)
+pub fn solid_png(rgb: [u8; 3]) -> Vec<u8> {
     let mut bytes = Vec::new();
     {
         let mut enc = png::Encoder::new(&mut bytes, 8, 8);
@@ -168,7 +173,7 @@ fn solid_png_uri(rgb: [u8; 3]) -> String {
         let px: Vec<u8> = (0..64).flat_map(|_| rgb).collect();
         w.write_image_data(&px).expect("png data");
     }
-    format!("data:image/png;base64,{}", b64(&bytes))
+    bytes
 }
 
 /// The same placement options through the OTHER documented entry point, the raster builder: ImageBuilder forwards
